@@ -918,6 +918,10 @@ func buildCases(c *fw.Ctx) []*Case {
 		}
 	}
 	bases = append(bases, rawBases(c)...)
+	// one document of 7000 nested containers for the cost comparison of the strict
+	// navigation mode (entry Aggressive.cost); it gets no faults of its own
+	deep := "<!DOCTYPE html><html><body><h1>deep</h1>" + strings.Repeat("<div><p>x</p>", 7000) + "</body></html>"
+	cases = append(cases, &Case{ID: "htmlcost0:0", Kind: "raw-htmlcost", Ext: "html", Data: []byte(deep), Desc: "7000 nested <div><p>x</p> (valid)", Base: "htmlcost0", Changed: true})
 	for _, b := range bases {
 		b := b
 		add(b, "none (valid base)", b.data)
